@@ -206,13 +206,13 @@ fn tov(r: Result<Result<bool, String>, Panicked>) -> V {
 }
 
 pub fn call_verify(r: &RLN, input: &[u8]) -> V {
-    tov(guarded(|| r.verify(Cursor::new(input.to_vec())).map_err(|e| e.to_string())))
+    tov(guarded(|| r.verify(gens::rd(input)).map_err(|e| e.to_string())))
 }
 pub fn call_verify_rln(r: &RLN, input: &[u8]) -> V {
-    tov(guarded(|| r.verify_rln_proof(Cursor::new(input.to_vec())).map_err(|e| e.to_string())))
+    tov(guarded(|| r.verify_rln_proof(gens::rd(input)).map_err(|e| e.to_string())))
 }
 pub fn call_verify_roots(r: &RLN, input: &[u8], roots: &[u8]) -> V {
-    tov(guarded(|| r.verify_with_roots(Cursor::new(input.to_vec()), Cursor::new(roots.to_vec())).map_err(|e| e.to_string())))
+    tov(guarded(|| r.verify_with_roots(gens::rd(input), gens::rd(roots)).map_err(|e| e.to_string())))
 }
 
 /// Independent acceptability of a verification input derived from a golden message.
